@@ -458,6 +458,11 @@ func (o *Obs) Invoke(c yae.Callable, arg interface{}, h *Host) {
 		v, err := c(arg)
 		if err != nil {
 			o.RunErr = err.Error()
+			if o.RunErr == "" {
+				o.RunErr = "internal: the Callable returned an error with an empty message"
+			}
+		} else if v == nil {
+			o.RunErr = "internal: the Callable returned neither a value nor an error"
 		} else {
 			o.Val = v
 		}
